@@ -100,6 +100,25 @@ Definition d_gapclass (a : args) : list (list Z) :=
 (* postcondition of the accessor/kernel panel: the harness reports [1] when no safe call panicked *)
 Definition p_panel (a : args) : list (list Z) := [[zb (Z.eqb (hd 0%Z (hd [] a)) 1)]].
 
-Definition ops_C09 : list (string * opfun) :=
+Definition ops_C09a : list (string * opfun) :=
   [ ("c09.validate", d_validate); ("c09.accepts.spec", s_accepts); ("c09.gapclass", d_gapclass);
     ("c09.panel.post1", p_panel) ].
+
+(* RecordBatch::try_new_with_options — schema/column agreement.
+   args: [row_count option: empty | n] then per field one group [type code; nullable] and per column one
+   group [type code; len; null_count] : [nfields; ncols] is the second group. Output [accept]. *)
+Definition batch_ok (rc : option Z) (fields cols : list (list Z)) : bool :=
+  Nat.eqb (List.length fields) (List.length cols) &&
+  let row_count := match rc with Some n => n | None => match cols with c :: _ => nth 1 c 0%Z | [] => 0%Z end end in
+  forallb (fun p : list Z * list Z =>
+             let f := fst p in let c := snd p in
+             Z.eqb (nth 0 f 0%Z) (nth 0 c 0%Z) && Z.eqb (nth 1 c 0%Z) row_count &&
+             (negb (Z.eqb (nth 1 f 0%Z) 0) || Z.eqb (nth 2 c 0%Z) 0)) (List.combine fields cols).
+Definition s_batch (a : args) : list (list Z) :=
+  let rc := match arg 0 a with n :: _ => Some n | [] => None end in
+  let nf := argn 1 a in
+  let rest := skipn 2 a in
+  [[zb (batch_ok rc (firstn nf rest) (skipn nf rest))]].
+Definition ops_C09b : list (string * opfun) := [ ("c09.batch.spec", s_batch) ].
+
+Definition ops_C09 : list (string * opfun) := ops_C09a ++ ops_C09b.
